@@ -17,6 +17,7 @@ import SkModel.Collection
 import SkModel.ParStore
 import SkModel.Runner
 import SkModel.Collect
+import SkModel.Catalog
 import SkModel.Spec.Lines
 
 open Lean Sk
@@ -573,10 +574,35 @@ def runCollectCase (j : Json) : Json :=
     ("collected", toJson ((List.range n).map fun t => (sF.collected t).length)),
     ("batches", toJson ((List.range n).map fun t => ((s0.tasks t).remaining.map List.length)))]
 
+/-! ### Catalog (C09) -/
+
+def toDirEntry (j : Json) : DirEntry :=
+  let cls : NameCls := match strF j "cls" with
+    | "live" => .live (strF j "stem")
+    | "rotated" => .rotated (strF j "stem")
+    | _ => .plain
+  { path := strF j "path", isFile := boolF j "isfile", cls := cls, key := natF j "key" }
+
+/-- registrations: [{search, path, kind: file|dir|other, entries:[...]}] -/
+def runCatalogCase (j : Json) : Json :=
+  let depth := natF j "depth"
+  let regs := (arrF j "regs").toList
+  let (es, expansions) := regs.foldl (fun (acc : Entries × List Json) r =>
+    let kind : PathKind := match strF r "kind" with
+      | "file" => .file
+      | "dir" => .dir ((arrF r "entries").toList.map toDirEntry)
+      | _ => .other ((arrF r "entries").toList.map toDirEntry)
+    let ex := expandPath (strF r "path") kind depth
+    (register acc.1 (natF r "search") ex, acc.2 ++ [toJson ex])) ([], [])
+  Json.mkObj [("files", toJson (es.map (·.1))),
+              ("entries", Json.arr (es.map fun p => Json.arr #[Json.str p.1, toJson p.2]).toArray),
+              ("expansions", Json.arr expansions.toArray)]
+
 def handle (j : Json) : Json :=
   match strF j "kind" with
   | "task" => Json.mkObj [("model", runTaskCase j), ("specSimple", specSimpleCase j),
                           ("specSeq", specSeqCase j), ("specGate", specGateCase j)]
+  | "catalog" => Json.mkObj [("model", runCatalogCase j)]
   | "collect" => Json.mkObj [("model", runCollectCase j)]
   | "plan" => Json.mkObj [("model", runPlanCase j)]
   | "run" => Json.mkObj [("model", runRunCase j)]
